@@ -1,0 +1,47 @@
+//go:build verif
+
+package types
+
+// Contracts for the deductive checker in /verif (comment-only; compiled only with -tags verif).
+// C11 (a liquid denom's recorded schedule: "no part is negative"), genesis side: a genesis document is accepted only if every period
+// of every denom schedule is non-negative - not merely the schedule's total. Lib specs: /verif/specs/c11g.
+
+/*@
+func (*GenesisState).GetDenomCounter
+    params m
+    pure
+    def m.DenomCounter
+func (*Denom).GetBaseDenom
+    inline
+func (*GenesisState).GetParams
+    inline
+
+alias LvDenoms []github.com/haqq-network/haqq/x/liquidvesting/types.Denom
+// the same denoms as far as this function reads them (the local copy of `gs` is re-assembled after its address was taken for a getter:
+// slices are compared up to their length)
+specfunc DenomsSame(a LvDenoms, b LvDenoms) bool = len(a) == len(b) && (forall i int :: 0 <= i && i < len(a) ==>
+        a[i].StartTime == b[i].StartTime && a[i].EndTime == b[i].EndTime && seqeq(a[i].LockupPeriods, b[i].LockupPeriods))
+
+// (Params).Validate of this module only checks parameter values: effect-free
+func (Params).Validate
+    pure
+
+func validateDenoms
+    // D names the denoms of the document as passed in (the parameter is copied to the heap because a pointer-receiver getter is called
+    // on it; a ghost value links the copy the loops read to the entry value)
+    ghostvar D LvDenoms
+    requires doc: DenomsSame(gs.Denoms, D)
+    // Go invariant the engine does not track for slices held in struct fields: lengths are non-negative
+    requires golen: len(gs.Denoms) >= 0 && (forall i int :: 0 <= i && i < len(gs.Denoms) ==> len(gs.Denoms[i].LockupPeriods) >= 0)
+    ensures c11_periods_nonneg: result == nil ==> (forall i int, j int :: 0 <= i && i < len(D) && 0 <= j && j < len(D[i].LockupPeriods)
+            ==> cnonneg(D[i].LockupPeriods[j].Amount))
+    ensures c11_times: result == nil ==> (forall i int :: 0 <= i && i < len(D) ==> time_ns(D[i].EndTime) >= time_ns(D[i].StartTime))
+    loop 1 invariant idx: 0 <= #i && #i <= len(gs.Denoms) && DenomsSame(gs.Denoms, D)
+    loop 1 invariant periods: forall i int, j int :: 0 <= i && i < #i && 0 <= j && j < len(gs.Denoms[i].LockupPeriods) ==> cnonneg(gs.Denoms[i].LockupPeriods[j].Amount)
+    loop 1 invariant times: forall i int :: 0 <= i && i < #i ==> time_ns(gs.Denoms[i].EndTime) >= time_ns(gs.Denoms[i].StartTime)
+    loop 2 invariant inner: 0 <= #i && #i <= len(elem.LockupPeriods) && DenomsSame(gs.Denoms, D) && 0 <= #i1 && #i1 < len(gs.Denoms) && elem == gs.Denoms[#i1]
+            && (forall j int :: 0 <= j && j < #i ==> cnonneg(elem.LockupPeriods[j].Amount))
+
+// (GenesisState.Validate is the two-line wrapper "Params.Validate, then validateDenoms"; a callee precondition that mentions a ghost
+// value cannot be discharged at a call site by the engine, so the wrapper is not under contract)
+@*/
